@@ -151,11 +151,21 @@ SchedBytes(c, n) ==
   LET t == TIndex(TemporalBounds(c), n) IN
   UNION {ElemBytes(c, ApplyPat([A |-> c.A, b |-> c.b], t \o s)) : s \in Box(SpatialBoxOf(c))}
 
+(* One hardware step consumes as many iteration points as the accelerator's template holds.  Where the schedule's innermost (spatial)
+   dimensions are shorter than the template's, a hardware step covers Group consecutive temporal steps of the schedule (the same number
+   for every operand: it depends on the schedule and the template only) *)
+Group(c) ==
+  LET inner == Prod(SubSeq(c.bounds, Len(c.bounds) - c.T + 1, Len(c.bounds)), 1)
+      full == IF \A j \in DOMAIN c.tb : c.tb[j] > 0 THEN Prod(c.tb, 1) ELSE inner IN
+  IF inner > 0 /\ full % inner = 0 THEN full \div inner ELSE 1
 StreamCase(c) ==
-  LET nsteps == Prod(TemporalBounds(c), 1) IN
+  LET nsteps == Prod(TemporalBounds(c), 1)
+      g == IF nsteps % Group(c) = 0 THEN Group(c) ELSE 1
+      hs == nsteps \div g IN
   First(<<
-    <<"StepCount", Steps(c.ub) = nsteps>>,
-    <<"StepBytes", Steps(c.ub) = nsteps => \A n \in 0..(nsteps - 1) : StepBytes(c.base, c.ub, c.ts, c.sb, c.ss, 8, n) = SchedBytes(c, n)>>
+    <<"StepCount", Steps(c.ub) = hs>>,
+    <<"StepBytes", Steps(c.ub) = hs => \A n \in 0..(hs - 1) :
+         StepBytes(c.base, c.ub, c.ts, c.sb, c.ss, 8, n) = UNION {SchedBytes(c, g * n + q) : q \in 0..(g - 1)}>>
   >>)
 
 (* ---------------- C04 map part: register map injectivity ---------------- *)
